@@ -245,8 +245,8 @@ func NewDialogueRunner(storer variable.Storer, rngSeed string, readers ...io.Rea
 
 	functionStorer := newFunctionStorer(rng)
 	functionStorer.convertAndAddFunction("visited", func(node string) bool {
-		_, ok := runner.visitedNodes[node]
-		return ok
+		// a restored snapshot may list a node with a count of 0
+		return runner.visitedNodes[node] > 0
 	})
 	functionStorer.convertAndAddFunction("visited_count", func(node string) int {
 		count := runner.visitedNodes[node]
